@@ -97,7 +97,7 @@ EndReplay == /\ pc["loop"] = "replaying" /\ local["loop"].i > local["loop"].n
 Step == \/ \E p \in Procs : BeginSend(p) \/ LockSend(p) \/ ReadNumber(p) \/ Persist(p) \/ Enqueue(p)
         \/ Flush \/ BeginReplay \/ ReplayOne \/ EndReplay
 Next == Step
-Spec == Init /\ [][Next]_vars /\ WF_vars(Flush) /\ \A p \in Procs : WF_vars(LockSend(p) \/ ReadNumber(p) \/ Persist(p) \/ Enqueue(p))
+Spec == Init /\ [][Next]_vars /\ WF_vars(Flush) /\ WF_vars(ReplayOne \/ EndReplay) /\ \A p \in Procs : WF_vars(LockSend(p) \/ ReadNumber(p) \/ Persist(p) \/ Enqueue(p))
 
 \* ---------------------------------------------------------------- C02
 Live(w) == SelectSeq(w, LAMBDA m : ~m.pd)
